@@ -6,7 +6,7 @@ Import ListNotations.
 From Coq Require Import ZArith.
 From CXV Require Import Gen.TokTy Gen.ParserTables Parse.Balanced Gen.Blocks Parse.BlocksSM.
 From CXV Require Import Base.Regex Base.Cost Gen.LexRules Lex.PlyLoop Gen.StreamTables Stream.TokBuf Fmt.TokFmt PP.Filters Misc.ReprModel Gen.Schema Parse.Fold Parse.Declarator Parse.DeclSpec Parse.EnumList Parse.BaseClause Parse.NsHeader Parse.Specs Parse.VarStmt Parse.FnTail Parse.Init Parse.Members Parse.MethodTail Parse.Template Parse.PQName Parse.Using Parse.EnumDecl Parse.ClassEnum Parse.TemplateArg Parse.CtorDtor Parse.ParamsX Parse.DeclStmt Parse.TemplateStmt Parse.MemberStmt Parse.OpName.
-From CXV Require Parse.DispatchLang Gen.Dispatch Parse.FinishClass Parse.ConvOp Parse.OperatorMember Parse.OperatorFn Parse.MethodImpl Parse.TemplateInst.
+From CXV Require Parse.DispatchLang Gen.Dispatch Parse.FinishClass Parse.ConvOp Parse.OperatorMember Parse.OperatorFn Parse.MethodImpl Parse.TemplateInst Parse.FriendStmt.
 From CXV Require Parse.Requires.
 Open Scope N_scope.
 
@@ -932,8 +932,23 @@ Definition run_template_inst (args : list N) : list N :=
   | DErr e => [1; e]
   end.
 
+(* 118: a friend declaration in a class body, behind `friend`.  Output: 0, rest length, nine specifier flags, then
+   0 base-name id  (a friend type)  |  1 name, type length, function type, method tail as for 94  (a friend function) *)
+Definition run_friend_stmt (args : list N) : list N :=
+  let toks := dec_tks args in
+  match FriendStmt.friend_stmt (4 * length toks + 8) toks with
+  | DOk (FriendStmt.FrType m b, rest) => 0 :: nlen rest :: enc_mods m ++ [0; b]
+  | DOk (FriendStmt.FrFn m nm rt ps va q, rest) =>
+      let x := enc_ty (TFn rt ps va) in
+      0 :: nlen rest :: enc_mods m ++ 1 :: nm :: nlen x :: x ++
+        bN (q_const q) :: bN (q_volatile q) :: bN (q_override q) :: bN (q_final q) :: q_ref q ::
+        enc_opt_tks (q_throw q) ++ enc_opt_tks (q_noexcept q) ++ [bN (q_pure q); bN (q_deleted q); bN (q_default q); bN (q_body q)]
+  | DErr e => [1; e]
+  end.
+
 Definition run_case (cmd : N) (args : list N) : list N :=
   match cmd, args with
+  | 118, _ => run_friend_stmt args
   | 117, _ => run_template_inst args
   | 116, _ => run_method_impl args
   | 115, _ => run_op_fn args
